@@ -80,10 +80,21 @@ def run_external(smt2, timeout_s, which=None):
         shutil.rmtree(d, ignore_errors=True)
 
 
+def load_factor():
+    """solver timeouts are wall-clock: on an oversubscribed machine (several checks at once) a query that needs 5 s of CPU
+    can miss a 20 s budget. The budgets are stretched by the 1-minute load per core (1x .. 5x), so that a busy machine makes
+    a check slower, not wrong."""
+    try:
+        return min(5.0, max(1.0, os.getloadavg()[0] / max(1, os.cpu_count() or 1)))
+    except (OSError, AttributeError):
+        return 1.0
+
+
 def solve_one(ob, timeout_ms=10000, external=True, all_solvers=False):
     t0 = time.time()
     if getattr(ob, "trivial", False):
         return Result(ob.name, "unsat", "simplifier", 0.0, kind=ob.kind)
+    timeout_ms = int(timeout_ms * load_factor())
     s = z3.Solver()
     s.set("timeout", timeout_ms)
     s.add(ob.viol)
@@ -122,6 +133,7 @@ def solve_one(ob, timeout_ms=10000, external=True, all_solvers=False):
 
 
 def check_sat(formula, timeout_ms=10000):
+    timeout_ms = int(timeout_ms * load_factor())
     s = z3.Solver()
     s.set("timeout", timeout_ms)
     s.add(formula)
